@@ -35,6 +35,10 @@ ASSUMPTIONS = [
     "no other process changes the packet filter while the session runs (the other instance's objects are present but static)",
     "the kernel answers SIGKILL of the client / a closed control channel as EOF on the helper's stdin (modelled as a cut)",
     "body rules of a plan only jump to built-in targets or, for tproxy's tproxy chain, to the divert chain (checked on every generated plan)",
+    "the general theorems c04_nat_all_exits / c04_tproxy_all_exits / c04_nft_all_exits (every plan body, every initial kernel state, every k, every cut) assume: "
+    "chain names without blanks and built-in OUTPUT/PREROUTING present in every iptables table (kst_wf), ports printed without blanks, the initial state holds "
+    "no object named for the session's own ports (erase c s0 = s0; anything else is allowed), tproxy bodies respect the restore order (tp_body_ordered), "
+    "nft body rules name a chain nft.py creates (nft_body_ok); nat with --user/--group and pf remain sweeps / statements only",
 ]
 
 HERE = os.path.dirname(os.path.abspath(__file__))
